@@ -464,12 +464,14 @@ def find_lasso(g, s, n, R, L, kmax=None):
 
 
 # ------------------------------------------------------------------ C15: get_fair_states
-def fair_states_task(n, nfair, perm=None, fixed=None):
+def fair_states_task(n, nfair, perm=None, fixed=None, history=None):
     """Kripke.get_fair_states(F) on all total structures with n states and all lists F of nfair state sets:
     (i) result is a subset of the fair states (always), (ii) equal to them outside known-finding class D7,
     (iii) the structure is not modified, no exception."""
     see.reset()
     fixed = dict(fixed or {})
+    if history:
+        fixed['t_%d_%d' % tuple(history)] = False       # add_edge's precondition: the edge is not there yet
     fv = lambda nm_: fixed[nm_] if nm_ in fixed else var(nm_)
     t0 = time.time()
     fair_names = ['f%d' % k for k in range(nfair)]
@@ -477,13 +479,21 @@ def fair_states_task(n, nfair, perm=None, fixed=None):
     start_lemma_log(SEED)
     from .harness import KRIPKE_MODS
     h = sym_kripke(n, aps=(), mods=KRIPKE_MODS, fold=True, care_total=True, extra=extra, perm=perm, bounds={}, fixed=fixed)
-    snap = snapshot(h.K)
     Fl = []
     for fn_ in fair_names:
         P = MSet()
         for i in range(n):
             P.put(i, fv('%s_%d' % (fn_, i)))
         Fl.append(P)
+    fixed_o = fixed
+    if history:
+        # history: ask once, add the edge `history` through the structure's own API, ask again - the second answer is about the
+        # structure as it is NOW (nothing computed for the first answer may be reused stale)
+        h.ctx.call(h.ctx.getattr1(h.K, 'get_fair_states'), [MList(Fl)], {})
+        h.ctx.call(h.ctx.getattr1(h.K, 'add_edge'), [history[0], history[1]], {})
+        fixed_o = dict(fixed)
+        fixed_o['t_%d_%d' % tuple(history)] = True
+    snap = snapshot(h.K)
     res = h.ctx.call(h.ctx.getattr1(h.K, 'get_fair_states'), [MList(Fl)], {})
     resv = vec(res, range(n))
     excg, unw, mut = exc_guard(h.fr), unwind_guard(h.vm), mutated(h.K, snap)
@@ -491,13 +501,13 @@ def fair_states_task(n, nfair, perm=None, fixed=None):
     kinds = exc_kinds(h.fr)
     t1 = time.time()
     dp0 = oracles.Depths('stable')
-    oracles.fair_states(matrix(n, fixed=fixed), n, [[fv('%s_%d' % (fn_, i)) for i in range(n)] for fn_ in fair_names], dp0)
+    oracles.fair_states(matrix(n, fixed=fixed_o), n, [[fv('%s_%d' % (fn_, i)) for i in range(n)] for fn_ in fair_names], dp0)
     d = Decider(total_text(n, fixed=fixed))
-    T2 = matrix(n, fixed=fixed)
+    T2 = matrix(n, fixed=fixed_o)
     fair2 = [[fv('%s_%d' % (fn_, i)) for i in range(n)] for fn_ in fair_names]
     dp = oracles.Depths('fixed', inner=dp0.max_inner, outer=dp0.max_outer)
     want = oracles.fair_states(T2, n, fair2, dp)
-    rec = dict(kind='get_fair_states', n=n, nfair=nfair, fixed=fixed, encode_s=round(t1 - t0, 2), exc=kinds, encoded=encoded)
+    rec = dict(kind='get_fair_states', n=n, nfair=nfair, fixed=fixed, history=list(history) if history else None, encode_s=round(t1 - t0, 2), exc=kinds, encoded=encoded)
     sound_bad = [b_and(a, b_not(w)) for a, w in zip(resv, want)]
     rec['sound'] = d.violated(*(sound_bad + [excg, unw, dp.unstable] + mut))
     if rec['sound'] == 'sat':
@@ -528,7 +538,13 @@ sys.path.insert(0, %(root)r)
 from pyModelChecking import Kripke
 from verif import explicit
 n = %(n)d; R = %(R)r; F = %(F)r
+hist = %(hist)r
 K = Kripke(S=list(range(n)), R=R)
+if hist:
+    first = K.get_fair_states([set(P) for P in F])
+    K.add_edge(*hist)
+    R = sorted(set(R) | {tuple(hist)})
+    print('history: get_fair_states -> %%s, then add_edge%%s, then get_fair_states again' %% (first, tuple(hist)))
 got = K.get_fair_states([set(P) for P in F])
 want = explicit.E_path(explicit.Struct(n, R, {}), explicit.TRUE_TREE, [set(P) for P in F])
 print('R=%%s F=%%s get_fair_states -> %%s ; states with a fair path -> %%s' %% (R, F, got, want))
@@ -545,7 +561,7 @@ def fair_replay(rec, model, cond='got != want'):
     model.update(rec.get('fixed') or {})
     R = [(i, j) for i in range(n) for j in range(n) if model.get('t_%d_%d' % (i, j))]
     F = [[i for i in range(n) if model.get('f%d_%d' % (k, i))] for k in range(rec['nfair'])]
-    path = write_replay('C15', FAIR_REPLAY % dict(root=ROOT, n=n, R=R, F=F, cond=cond))
+    path = write_replay('C15', FAIR_REPLAY % dict(root=ROOT, n=n, R=R, F=F, cond=cond, hist=rec.get('history')))
     ok, out = run_replay(path)
     return (path if ok else None), out
 
